@@ -1,5 +1,6 @@
 From Coq Require Import ZArith QArith List Bool Lia.
 Import ListNotations.
 From Inf Require Import model.PathM model.EngineM model.WeightM model.SwapM proofs.SwapP.
-Theorem C11_placeholder : True. Proof. exact placeholder_true. Qed.
-Print Assumptions C11_placeholder.
+Theorem C11_tmp : forall s, is_acc s = true -> s = ACC.
+Proof. exact is_acc_true. Qed.
+Print Assumptions C11_tmp.
